@@ -171,7 +171,70 @@ def oracle(ctx, case, real, rt):
             return
 
 
+def mixed_logger_case(ctx, i):
+    """Model-free: actions that log to the application's own logger (a MemoryLogger, as in tests, or any ILogger) around and
+    inside actions that log to the destinations: a destination failure is reported to all destinations whatever logger the
+    action that happens to be current belongs to."""
+    import contextvars
+    import eliot
+    from eliot import _output
+
+    rng = ctx.rng("mixed-logger:%d" % i)
+    dst = _output.Logger._destinations
+    saved = (dst._destinations, dst._any_added, dst._globalFields)
+    dst.__init__()
+    good, calls, failed = [], [0], []
+    fail_at = set(rng.sample(range(16), rng.randint(1, 5)))
+
+    def bad(message):
+        k = calls[0]
+        calls[0] += 1
+        if k in fail_at:
+            failed.append(message.get("message_type") == "eliot:destination_failure")
+            raise ValueError("destination down (call %d)" % k)
+
+    mem = eliot.MemoryLogger()
+
+    def block(depth):
+        lg = rng.choice([mem, None, eliot.Logger()])
+        with (eliot.start_action(action_type="x:act") if lg is None else eliot.start_action(lg, "x:act")):
+            for _ in range(rng.randint(1, 3)):
+                r = rng.random()
+                if r < 0.4 and depth < 3:
+                    block(depth + 1)
+                elif r < 0.7:
+                    eliot.log_message(message_type="x:msg")
+                else:
+                    eliot.Logger().write({"message_type": "x:direct", "task_uuid": "t", "task_level": [1], "timestamp": 0.0})
+
+    def main():
+        eliot.add_destinations(bad, good.append) if rng.random() < 0.5 else eliot.add_destinations(good.append, bad)
+        for _ in range(rng.randint(1, 3)):
+            block(0)
+
+    problems = []
+    try:
+        contextvars.Context().run(main)
+    except BaseException as e:  # noqa
+        problems.append("a logging call raised %s" % type(e).__name__)
+    finally:
+        dst._destinations, dst._any_added, dst._globalFields = saved
+    want = sum(1 for on_report in failed if not on_report)
+    got = sum(1 for m in good if m.get("message_type") == "eliot:destination_failure")
+    if not problems and got != want:
+        problems.append("a destination failed on %d ordinary messages but the healthy destination was offered %d eliot:destination_failure "
+                        "reports (the test logger holds %d)" % (want, got, sum(1 for m in mem.messages if m.get("message_type") == "eliot:destination_failure")))
+    mem.tracebackMessages[:] = []
+    return problems[:1], want
+
+
 def run(ctx):
+    for i in range(ctx.budget(120, 3000)):
+        problems, want = mixed_logger_case(ctx, i)
+        ctx.case({"mixed-logger": i, "seed": ctx.seed}, nontrivial=want > 0, tags=["mixed-logger"], sample=(i < 1))
+        if problems:
+            ctx.violation("mixed loggers: " + problems[0], {"mixed-logger": i, "seed": ctx.seed})
+            break
     n = ctx.budget(450, 14000)
     syscorr.run_programs(ctx, (2 * n) // 3, PROFILE_FIXED, oracle, label="fixed", nontrivial=lambda c, r, s: nt(c, r))
     syscorr.run_programs(ctx, n // 3, PROFILE_DYN, oracle, label="dyn", nontrivial=lambda c, r, s: nt(c, r))
@@ -186,6 +249,12 @@ def nt(case, real):
 def replay(ctx, obj):
     from .. import sysinterp
     case = obj["case"]
+    if "mixed-logger" in case:
+        problems, want = mixed_logger_case(ctx, case["mixed-logger"])
+        print(problems, want)
+        if problems:
+            ctx.violation("mixed loggers: " + problems[0], case)
+        return
     real, rt = sysinterp.run_case(case)
     print(real["outcome"], len(real["offered"]), rt.failures[:3])
     oracle(ctx, case, real, rt)
